@@ -770,6 +770,7 @@ class ModuleVistor(NodeVisitor):
         if obj is not None:
             obj.docstring = cleandoc(encodable_text(docstring))
             obj.docstring_lineno = extract_docstring_linenum(expr) if isinstance(expr, Str) else expr.lineno
+            obj.docstring_module = self.builder.currentMod
             # TODO: It might be better to not perform docstring parsing until
             #       we have the final docstrings for all objects.
             obj.parsed_docstring = None
